@@ -58,6 +58,13 @@ def cursorCapGen : Nat :=
 def cursorDrainGen : Bool :=
   Gen.Caps.cp_stmts.head? == some "select { case <-vx.chCursorPos: default: }"
 
+/-- Does the time-out arm of `CursorPosition()`'s select withdraw the request
+(`atomicStore(&vx.reqCursorPos, false)`)? -/
+def cursorTimeoutResetsGen : Bool :=
+  match Gen.Caps.cp_select.find? (·.1 == "<-timeout.C") with
+  | some (_, body) => body.contains "atomicStore(&vx.reqCursorPos, false)"
+  | none => false
+
 /-- Parameters of the system. -/
 structure Params where
   qcap : Nat
@@ -67,6 +74,8 @@ structure Params where
   cursorCap : Nat := cursorCapGen
   /-- `CursorPosition()` drains `chCursorPos` before it raises the request flag -/
   cursorDrain : Bool := cursorDrainGen
+  /-- the time-out exit of `CursorPosition()` clears the request flag -/
+  cursorTimeoutResets : Bool := cursorTimeoutResetsGen
 
 structure Sys where
   vs : VState := {}
@@ -193,7 +202,9 @@ def next (p : Params) (s : Sys) : Label → Option (Except Panic Sys)
       if s.cursorWaiting then none
       else some (.ok { s with vs := { s.vs with reqCursorPos := true }, cursorWaiting := true })
   | .cursorTimeout =>
-      if s.cursorWaiting then some (.ok { s with vs := { s.vs with reqCursorPos := false }, cursorWaiting := false })
+      if s.cursorWaiting then
+        some (.ok { s with vs := { s.vs with reqCursorPos := if p.cursorTimeoutResets then false else s.vs.reqCursorPos },
+                           cursorWaiting := false })
       else none
   | .cursorDrain =>
       if p.cursorDrain && !s.cursorWaiting then some (.ok { s with cursorCh := [] }) else none
